@@ -187,6 +187,14 @@ def pctResult (q : Int) (found count : Nat) : Int :=
   if isU q || count == 0 then C.UNDEF
   else C.b2i (decide ((Float.ofNat found / Float.ofNat count) * 100 ≥ Float.ofInt q))
 
+/-- OP_ITER_CONDITION: should the loop go on? (`q` quantifier word, `t` true-count so far, `r` body result) -/
+def contWord (q t r : Int) : Bool :=
+  if isU q then r != 0 else if q == 0 then r != 1 else decide (C.add t r < q)
+
+/-- OP_ITER_END: `n` iterations executed, `t` of them true -/
+def endWord (q t n : Int) : Int :=
+  if n == 0 then 0 else if isU q then C.b2i (t == n) else if q == 0 then C.b2i (t == 0) else C.b2i (decide (t ≥ q))
+
 def setM (mem : List Int) (k : Nat) (v : Int) : List Int := mem.set k v
 def getM (mem : List Int) (k : Nat) : Int := mem.getD k 0
 
@@ -286,10 +294,9 @@ def step (env : Env) (i : Instr) (s : St) : Option St :=
         | none => next (C.UNDEF :: 1 :: it :: st)
       | none => none
   | .iterCondition, q :: t :: r :: st =>
-      let c := if isU q then C.b2i (r != 0) else if q == 0 then C.b2i (r != 1) else C.b2i (decide (C.add t r < q))
-      next (r :: c :: st)
+      next (r :: C.b2i (contWord q t r) :: st)
   | .iterEnd, q :: t :: n :: st =>
-      next ((if n == 0 then 0 else if isU q then C.b2i (t == n) else if q == 0 then C.b2i (t == 0) else C.b2i (decide (t ≥ q))) :: st)
+      next (endWord q t n :: st)
   | _, _ => none
 
 /-- run until the program counter leaves the code -/
